@@ -96,10 +96,10 @@ func TestC02(t *testing.T) { runWorldSpec(t, withLevel(specC02)) }
 var specC03 = &worldSpec{
 	Prop: "C03",
 	Profile: &Profile{MinSteps: 12, MaxSteps: 40, QuietOneIn: 3,
-		W:        weights(map[string]int{"setnil": 0, "lvfo": 4, "dvf": 1, "prune": 5, "setinit": 2, "vread": 3}),
+		W:        weights(map[string]int{"setnil": 0, "lvfo": 4, "dvf": 1, "prune": 5, "setinit": 2, "vread": 3, "hop": 2}),
 		Backends: []string{"mem"}},
 	Obs:  Observers{Proofs: true},
-	Rule: "history of 12-40 steps; after every step, for every retained non-empty version and the working tree and every probe key (all present keys; absent: below min, above max, neighbours, prefixes, extensions) the proof of the right kind must be produced and must verify with ics23.Verify(Non)Membership(IavlSpec) against the REFERENCE root; it must not verify for another value, another key, the opposite claim or the reference root of another retained version in which the claim is false; wrong-kind requests must error; on committed versions the tree's own VerifyMembership / VerifyNonMembership / VerifyProof accept its proofs and reject the opposite claim. non-trivial = some version with >=2 keys, both proof kinds exercised, and a proof path with nodes of >=2 versions; distinct = sha256 of the history",
+	Rule: "history of 12-40 steps (incl. export / import hops, plain and compressed: the history continues on the imported store); after every step, for every retained non-empty version and the working tree and every probe key (all present keys; absent: below min, above max, neighbours, prefixes, extensions) the proof of the right kind must be produced and must verify with ics23.Verify(Non)Membership(IavlSpec) against the REFERENCE root; it must not verify for another value, another key, the opposite claim or the reference root of another retained version in which the claim is false; wrong-kind requests must error; on committed versions the tree's own VerifyMembership / VerifyNonMembership / VerifyProof accept its proofs and reject the opposite claim. non-trivial = some version with >=2 keys, both proof kinds exercised, and a proof path with nodes of >=2 versions; distinct = sha256 of the history",
 	Nontrivial: func(w *World) bool {
 		return w.Cnt["max_keys"] >= 2 && w.Cnt["membership_proofs"] > 0 && w.Cnt["nonmembership_proofs"] > 0 && w.Labels["proof_path_multi_version"]
 	},
@@ -196,10 +196,10 @@ func TestC13a(t *testing.T) { runWorldSpec(t, withLevel(specC13)) }
 // ---------------------------------------------------------------- C14 version bookkeeping
 var specC14 = &worldSpec{
 	Prop: "C14",
-	Profile: &Profile{MinSteps: 15, MaxSteps: 55, QuietOneIn: 4, W: weights(mergeW(pruneWeights, map[string]int{"reopen": 12, "save": 26, "lvfo_invalid": 3, "reload": 6, "reload_invalid": 3, "setinit": 2})),
+	Profile: &Profile{MinSteps: 15, MaxSteps: 55, QuietOneIn: 4, W: weights(mergeW(pruneWeights, map[string]int{"reopen": 12, "save": 26, "lvfo_invalid": 3, "reload": 6, "reload_invalid": 3, "setinit": 2, "hop": 2})),
 		Backends: []string{"mem", "mem", "trace", "prefix"}},
 	Obs:  Observers{Versions: true, Fresh: true, Light: true},
-	Rule: "history of 15-55 steps (C04 profile + InitialVersion unset/1/2/7/63/64/127/128/8191/8192/2^31-1/2^33 configured by the option or by SetInitialVersion (also called on the live handle at arbitrary moments: ignored unless the store is empty), reopen / LoadVersion on the live handle at older versions (out-of-range targets must fail and leave the tree as it was) and re-commit, both of drawn writes and of the exact recorded writes of the existing version); after every step and through a fresh handle after prune/rollback: commit numbers consecutive from 1 or InitialVersion; VersionExists(v), GetImmutable(v), GetVersioned(k,v), LoadVersion(v) on a throw-away handle for every v in {0,1} U [first-ever-1, latest+1], AvailableVersions, GetLatestVersion agree with the model range; re-commit of an existing number succeeds without effect iff the reference hashes are equal, else errors with a byte-identical store. non-trivial = >=1 prune or rollback of versions and >=1 reopen",
+	Rule: "history of 15-55 steps (C04 profile + InitialVersion unset/1/2/7/63/64/127/128/8191/8192/2^31-1/2^33 configured by the option or by SetInitialVersion (also called on the live handle at arbitrary moments: ignored unless the store is empty), reopen / LoadVersion on the live handle at older versions (out-of-range targets must fail and leave the tree as it was) and re-commit, both of drawn writes and of the exact recorded writes of the existing version; export / import hops onto a new store); after every step and through a fresh handle after prune/rollback: commit numbers consecutive from 1 or InitialVersion; VersionExists(v), GetImmutable(v), GetVersioned(k,v), LoadVersion(v) on a throw-away handle for every v in {0,1} U [first-ever-1, latest+1], AvailableVersions, GetLatestVersion agree with the model range; re-commit of an existing number succeeds without effect iff the reference hashes are equal, else errors with a byte-identical store. non-trivial = >=1 prune or rollback of versions and >=1 reopen",
 	Nontrivial: func(w *World) bool {
 		return (w.Labels["prune"] || w.Labels["rollback_versions"]) && w.Labels["reopen"]
 	},
